@@ -118,7 +118,8 @@ FAC_RULES = ['translated', 'argscale', 'quadpert', 'conj', 'compose',
 BREGMAN_OK = ('L2NormSquared', 'L1Norm', 'L2Norm', 'Huber',
               'KullbackLeibler', 'LpNorm')
 ZERO_SCALE_OK = ('f_l1', 'f_l2', 'f_l2sq', 'f_l1l2', 'f_linf', 'f_huber',
-                 'f_cc_l2sq', 'f_const')
+                 'f_cc_l2sq', 'f_const', 'L1Norm', 'L2Norm', 'L2NormSquared',
+                 'GroupL1Norm', 'LpNorm', 'ConstantFunctional')
 EXP_TYPE = ('f_cc_kl_ce', 'KullbackLeiblerCrossEntropy',
             'KullbackLeiblerCrossEntropyConvexConj')
 LEAF_WKINDS = ('rn', 'rn_const', 'rn_array', 'discr')
@@ -165,8 +166,8 @@ def _wrap(draw, fd, e, rsp, mode, exp_type, el_ok):
                 'y': draw(zoo.vecs(n, scale=1.0))}
     if rule == 'argscale':
         s = draw(scal)
-        if (mode == 'factory' and direct and e.name in ZERO_SCALE_OK and
-                draw(st.integers(0, 7)) == 0):
+        if (direct and e.name in ZERO_SCALE_OK and
+                not _has_rejection(fd) and draw(st.integers(0, 7)) == 0):
             s = 0.0
         return {'t': 'argscale', 'f': fd, 's': s}
     if rule == 'argscale_el':
@@ -178,8 +179,11 @@ def _wrap(draw, fd, e, rsp, mode, exp_type, el_ok):
     if rule == 'leftscale':
         s = draw(st.sampled_from([0.5, 2.0, 3.0, 0.25, 1.0]) if exp_type
                  else zoo.pos_scalars())
-        if draw(st.integers(0, 11)) == 0:
+        k = draw(st.integers(0, 11))
+        if k == 0:
             s = -s
+        elif k == 1:
+            s = 0.0
         return {'t': 'leftscale', 'f': fd, 's': s}
     if rule == 'quadpert':
         a = draw(st.sampled_from([0.0, 0.5, 1.0, 3.0, 0.1, 0.0]))
@@ -594,6 +598,53 @@ def _norm_agrees(space, rsp, x):
 
 
 def run_case(desc):
+    """Run the case; when a derived functional fails, find the smallest
+    failing sub-tree so that the signature names the root cause (a leaf
+    class, or the calculus rule whose operand passes on its own)."""
+    try:
+        return _run_tree(desc)
+    except Violation as v:
+        fd = desc['func']
+        if fd['t'] == 'leaf':
+            raise
+        for sub in _sub_cases(desc):
+            try:
+                run_case(sub)
+            except Violation as inner:
+                raise Violation(inner.signature,
+                                '[inside {}] {}'.format(zoo.site_of(fd),
+                                                        inner.detail))
+        parts = v.signature.split('|')
+        parts[2] = 'rule:{}@{}'.format(zoo.rule_name(fd), desc['mode'])
+        raise Violation('|'.join(parts),
+                        '[{}; operands pass on their own] {}'.format(
+                            zoo.site_of(fd), v.detail))
+
+
+def _sub_cases(desc):
+    """Descriptors of the operand(s) of the outermost rule, on their own
+    space, with the same step and points."""
+    fd, sd = desc['func'], desc['space']
+    if fd['t'] != 'sepsum':
+        return [dict(desc, func=fd['f'])]
+    rsp = R.RSpace(sd)
+    sds = build.space_parts(sd)
+    xv = zoo.vec(desc['x'], rsp.size)
+    yv = zoo.vec(desc['y'], rsp.size)
+    out = []
+    for i, (part, sl) in enumerate(zip(fd['parts'], rsp.slices)):
+        sg = desc['sigma']
+        if sg['kind'] == 'list':
+            sg = {'kind': 'scalar', 'value': sg['values'][i]}
+        out.append(dict(desc, space=sds[i], func=part, sigma=sg,
+                        x={'data': [float(t) for t in xv[sl]]},
+                        y={'data': [float(t) for t in yv[sl]]}))
+        if fd.get('power'):
+            break
+    return out
+
+
+def _run_tree(desc):
     sd, fd, mode = desc['space'], desc['func'], desc['mode']
     rsp = R.RSpace(sd)
     n = rsp.size
@@ -912,6 +963,7 @@ def _has_bdry(sd):
 REQUIRED_STRATA = (
     ['entry:' + e.name for e in zoo.ENTRIES] +
     ['rule:functional:' + r for r in ('translated', 'argscale', 'leftscale',
+                                      'argscale_zero', 'leftscale_zero',
                                       'quadpert', 'addconst', 'conj',
                                       'bregman', 'sepsum')] +
     ['rule:factory:' + r for r in ('translated', 'argscale', 'argscale_el',
